@@ -187,6 +187,7 @@ struct Ctx
 	std::string last_fail_case, last_fail_clause, last_fail_msg;
 
 	int cur_fd = -1;
+	unsigned case_timeout = 120;
 	std::function<Verdict(Case const&, Ctx&)> runner;
 
 	void label(std::string const& l, long long n = 1) { labels[l] += n; }
@@ -206,7 +207,11 @@ struct Ctx
 		if (!skip.empty() && skip.count(d)) { ++skipped_known; return Verdict(); }
 		set_current(txt);
 		++evaluations;
+		// watchdog: a case that does not finish within case_timeout seconds of wall-clock kills the worker (SIGALRM);
+		// the orchestrator replays it three times before calling it a hang
+		::alarm(case_timeout);
 		Verdict v = runner(c, *this);
+		::alarm(0);
 		if (v.inconclusive) { ++inconclusive; return v; }
 		if (v.nontrivial)
 		{
